@@ -83,7 +83,7 @@ func (vc *VC) binop(op token.Token, x, y Term, t types.Type, ty types.Type) (Ter
 	case token.NEQ:
 		return Not(vc.valueEq(x, y, t)), safe, nil
 	}
-	if b, ok := t.Underlying().(*types.Basic); ok && (b.Kind() == types.Bool || b.Kind() == types.UntypedBool) {
+	if b, ok := U(t).(*types.Basic); ok && (b.Kind() == types.Bool || b.Kind() == types.UntypedBool) {
 		switch op {
 		case token.LAND, token.AND:
 			return And(x, y), safe, nil
@@ -93,7 +93,7 @@ func (vc *VC) binop(op token.Token, x, y Term, t types.Type, ty types.Type) (Ter
 			return App(SBool, "xor", x, y), safe, nil
 		}
 	}
-	if b, ok := t.Underlying().(*types.Basic); ok && b.Info()&types.IsString != 0 {
+	if b, ok := U(t).(*types.Basic); ok && b.Info()&types.IsString != 0 {
 		switch op {
 		case token.ADD:
 			vc.DeclareFun("strcat", []Sort{SStr, SStr}, SStr)
@@ -256,7 +256,7 @@ func (vc *VC) binop(op token.Token, x, y Term, t types.Type, ty types.Type) (Ter
 
 // valueEq is Go's == on values of type t.
 func (vc *VC) valueEq(x, y Term, t types.Type) Term {
-	switch t.Underlying().(type) {
+	switch U(t).(type) {
 	case *types.Slice:
 		// only comparison with nil is legal in Go
 		return Eq(Rid(SBase(x)), Rid(SBase(y)))
